@@ -183,12 +183,16 @@ class PendingIf(_PendingCompoundStmt[If]):
         body = self.nsp_global.expr_wraper(self.converted_body)
         orelse = self.nsp_global.expr_wraper(self.converted_orelse)
         if self.nsp_global.configs.if_style == "short_circuit":
+            condition = utils.as_condition(test)
+            is_bool_value = condition is not test
+            test = condition
             if len(self.converted_orelse) > 0:
                 body_or_true = BoolOp(op=Or(), values=[body, Constant(value=1)])
-                # `test and ...` evaluates to `test` itself when it is false,
-                # `... or orelse` would check the truth value of `test` again.
-                # `not not test` makes sure the truth value is checked only once
-                test = UnaryOp(op=Not(), operand=UnaryOp(op=Not(), operand=test))
+                if not is_bool_value:
+                    # `test and ...` evaluates to `test` itself when it is false,
+                    # `... or orelse` would check the truth value of `test` again.
+                    # `not not test` makes sure the truth value is checked only once
+                    test = UnaryOp(op=Not(), operand=UnaryOp(op=Not(), operand=test))
                 semi_if = BoolOp(op=And(), values=[test, body_or_true])
                 return [BoolOp(op=Or(), values=[semi_if, orelse])]
             else:
@@ -321,16 +325,15 @@ class PendingWhile(_PendingLoop[While]):
 
         # add additional check in "test"
         # if there is a break
+        while_loop_test = utils.as_condition(expr_transf(self.nsp, self.node.test))
         if self.break_cnt:
             while_loop_test = BoolOp(
                 op=And(),
                 values=[
                     UnaryOp(op=Not(), operand=self.flow_ctrl_break_expr),
-                    expr_transf(self.nsp, self.node.test),
+                    while_loop_test,
                 ],
             )
-        else:
-            while_loop_test = expr_transf(self.nsp, self.node.test)
 
         # "orelse" runs if there's no break
         while_loop_orelse: expr
